@@ -34,8 +34,7 @@ _mod('sum', PLUS); _mod('product', PRODUCT); _mod('pow', POW)
 # ---- trans(f, as.constant X): argument validation with exact error conditions, result f(r + X)
 # PFInstance stands for both tuple types of a definition chain: a PotentialFormInstanceTuple HAS potential_form / parameters,
 # a PotentialModifierTuple does not (it has modifier / potential_forms)
-_pfi = REG.classes['PFInstance']
-_pfi.fields.update({'potential_form': T.Opt(T.Str), 'parameters': T.Opt(T.List(T.Real))}); _pfi.optional_attrs |= {'potential_form', 'parameters'}
+_pfi = REG.classes['PFInstance']        # (fields declared in contracts/builders.py)
 pf_label = field('PFInstance', 'potential_form', StrS); pf_is_modifier = field('PFInstance', 'potential_form?none', BoolS)
 pf_params = field('PFInstance', 'parameters', z3.SeqSort(RealS)); pf_params_none = field('PFInstance', 'parameters?none', BoolS)
 
@@ -53,9 +52,8 @@ REG.add(Contract(F_MOD, 'trans', params=[('potential_forms', T.List(T.Obj('PFIns
     on_raise=lambda v, old: [], carries=['post', 'raises'], props=['C09', 'C16']))
 
 # ---- spline(A >d SPLINE >a B): exactly which definitions are refused, always as configuration errors (C16); construction chain (C10)
-REG.add_class(ClassDecl('atsim/potentials/config/_common.py', 'RangeStart', {'range_type': T.Str, 'start': T.Real}, external=True, pyname='MultiRangeDefinitionTuple'))
-_pfi.fields.update({'start': T.Obj('RangeStart'), 'next': T.Opt(T.Obj('PFInstance'))}); _pfi.namedtuple = True
 pf_start = lambda p: field('RangeStart', 'start', RealS)(field('PFInstance', 'start', ObjSort('RangeStart'))(p))
+pf_nostart = field('PFInstance', 'start?none', BoolS)
 pf_next = field('PFInstance', 'next', BU.PFI); pf_last = field('PFInstance', 'next?none', BoolS)
 EXP, B4 = z3.StringVal('exp_spline'), z3.StringVal('buck4_spline')
 
@@ -69,7 +67,8 @@ def _spline_ok(v):
                   z3.Implies(pf_label(p2) == B4, z3.And(z3.Length(ps) == 1, d < ps[0], ps[0] < a)))
 _wf = lambda: [z3.ForAll([z3.Const('p!w', BU.PFI)], pf_is_modifier(z3.Const('p!w', BU.PFI)) == pf_params_none(z3.Const('p!w', BU.PFI)))]
 REG.add(Contract(F_MOD, 'spline', params=[('potential_forms', T.List(T.Obj('PFInstance'))), ('potential_form_builder', T.Obj('Potential_Form_Builder'))],
-    requires=lambda v: [pf_is_modifier(p_) == pf_params_none(p_) for p_ in (v.potential_forms[0], pf_next(v.potential_forms[0]), pf_next(pf_next(v.potential_forms[0])))],   # each part is one tuple type or the other
+    requires=lambda v: [pf_is_modifier(p_) == pf_params_none(p_) for p_ in (v.potential_forms[0], pf_next(v.potential_forms[0]), pf_next(pf_next(v.potential_forms[0])))] +   # each part is one tuple type or the other
+                       [z3.Not(pf_nostart(p_)) for p_ in (v.potential_forms[0], pf_next(v.potential_forms[0]), pf_next(pf_next(v.potential_forms[0])))],          # and carries a range start (the parser supplies '>0' where none is written)
     ensures=lambda v, old, res: [_spline_ok(v)], post_names=['returns-only-for-a-well-formed-three-part-definition'],
     raises_when=lambda v, old, exc: [z3.BoolVal(exc.cls in ('ConfigurationException', 'UnknownModifierException', 'UnknownPotentialFormException')),
                                      z3.Implies(z3.BoolVal(exc.origin is None), z3.Not(_spline_ok(v)))],
